@@ -21,6 +21,9 @@ VARIANTS = {
     "cov":   ["-O0", "-g", "--coverage"],   # development aid: line coverage of the library by the harnesses (gcov)
     # ThreadSanitizer probe of the OpenMP region: SimGOMP runs the team on real threads, a single rank runs inline
     "tsan":  ["-O1", "-g", "-fsanitize=thread", "-DSIM_GOMP_THREADS"],
+    # the same real-thread team without compiler instrumentation, for valgrind's binary-level race detectors (helgrind / drd):
+    # they also see the stores g++'s -fsanitize=thread leaves uninstrumented (a store that is the left-hand side of a call)
+    "thr":   ["-O1", "-g", "-DSIM_GOMP_THREADS"],
 }
 LINK = {
     "san":   ["-fsanitize=address,undefined"],
@@ -28,6 +31,7 @@ LINK = {
     "vg":    [],
     "cov":   ["--coverage"],
     "tsan":  ["-fsanitize=thread"],
+    "thr":   [],
 }
 HARNESSES = ["c16_dispatch", "c06_parallel", "c13_container", "c17_workflow", "c06_omp_tsan", "omp_threads_selftest", "simtest"]
 
